@@ -255,7 +255,13 @@ func (c *codegen) emitStoreSelectorExpr(n *ast.SelectorExpr) {
 		c.prog.Err = fmt.Errorf("nested selector assigns not supported yet")
 		return
 	}
-	ast.Walk(c, n.X)                       // load the struct
+	// (*p).f = v is p.f = v: the value of *p is a copy of the struct, the
+	// store has to reach the struct p points to.
+	x := n.X
+	if star, ok := ast.Unparen(x).(*ast.StarExpr); ok {
+		x = star.X
+	}
+	ast.Walk(c, x)                         // load the struct
 	path := pathToField(strct, n.Sel.Name) // get path to field
 	if path == nil {
 		c.prog.Err = fmt.Errorf("field %q not found in type %s", n.Sel.Name, typ)
